@@ -245,6 +245,10 @@ def check_C03(tier, seed):
         hs.append(sc)
     F.execute_and_validate("C03", exe, scs + hs, out, "c03-rnd", TCFG)
 
+    # next through the macro front end (the `next` variable of define_method) on real class hierarchies
+    lat = F.gen_registries("GenLat_P4any.cfg", out, module="GenLat.tla")
+    real_class_programs("C03", lat, rng, out, 10 if tier == "quick" else 100, tier)
+
     def flip_next(ev):
         if ev["rows"]:
             ev["rows"][0][1] = -1 if ev["rows"][0][1] != -1 else -2
